@@ -1,8 +1,8 @@
 """Directory trees for the file-system properties, and the reference walk (C13's sentence as code)."""
 import os
 
-DIRN = ["sub", "aa", "ab", "ac", "core", "my-mod", "v1.2", "tests", "docs_src", "x.y", "CMakeStuff", "e_dir", "zz", "mods.cmake", "my dir", "dïr"]
-STEMS = ["a", "b", "top", "e1", "e2", "e3", "find-foo", "a.b", "Upper", "z_last", "m", "e4", "util", "pre.cmake.post", "x.cmake", "with space", "ünï-ß"]
+DIRN = ["sub", "aa", "ab", "ac", "core", "my-mod", "v1.2", "tests", "docs_src", "x.y", "CMakeStuff", "e_dir", "zz", "mods.cmake", "my dir", "dïr", "cafe\u0301", ".ci", ".tools"]
+STEMS = ["a", "b", "top", "e1", "e2", "e3", "find-foo", "a.b", "Upper", "z_last", "m", "e4", "util", "pre.cmake.post", "x.cmake", "with space", "ünï-ß", "e\u0301cole", ".hidden", ".ci_mod"]
 NONCMAKE = ["README.md", "x.cmake.in", "x.cmake.bak", "foo.cmakex", "Makefile", "cmake", "notes.txt", "cmake.txt",
             "CMakeLists.txt", "a.cmake~"]
 
@@ -40,7 +40,8 @@ def cmake_text(rel, rng=None, rich=False):
     return t
 
 
-def gen_tree(rng, max_depth=4, p_sub=0.6, mixed_case=True, noncmake=True, rich=False, ensure_top=True, case_twins=False):
+def gen_tree(rng, max_depth=4, p_sub=0.6, mixed_case=True, noncmake=True, rich=False, ensure_top=True, case_twins=False,
+             index_module=False):
     t = Tree()
     twins = {"a": "A", "b": "B", "top": "Top", "m": "M", "util": "Util", "sub": "Sub", "aa": "AA", "core": "Core", "zz": "ZZ"}
 
@@ -75,6 +76,10 @@ def gen_tree(rng, max_depth=4, p_sub=0.6, mixed_case=True, noncmake=True, rich=F
                     t.dirs.add(sd2)
                     fill(sd2, depth + 1)
     fill("", 0)
+    if index_module:
+        # a module that is itself called index.cmake: its page and the directory's index.rst compete for one file name
+        d = rng.choice(sorted(t.dirs))
+        t.files[os.path.join(d, "index.cmake")] = cmake_text(os.path.join(d, "index.cmake"), rng, rich)
     if ensure_top and not any(f.endswith(".cmake") for f in t.files_of("")):
         t.files["top.cmake"] = cmake_text("top.cmake", rng, rich)
     return t
